@@ -1235,6 +1235,11 @@ class Engine:
         return ''.join(parts)
 
     def _fstr(self, n, env, g):
+        if len(n.values) == 1 and isinstance(n.values[0], ast.FormattedValue) and n.values[0].format_spec is None and n.values[0].conversion == -1:
+            x = self._fstr_cache.get(id(n.values[0]))
+            if isinstance(x, Sym) and not x.is_bool:      # f'{n}' of a symbolic int is str(n)
+                self._fstr_cache.pop(id(n.values[0]))
+                return IntStr(x)
         items = []
         for v in n.values:
             if isinstance(v, ast.FormattedValue):
